@@ -44,12 +44,17 @@ func (s *ServerSocket) Write(buf []byte) error {
 
 //Read data
 func (s *ServerSocket) Read() ([]byte, error) {
-	<-s.notifyC
 	var buf []byte
 	var err error
 	for {
 		v, _, e := s.e.Read(&s.addr)
 		if e != nil {
+			if e == tcpip.ErrWouldBlock && buf == nil {
+				// nothing has arrived yet; data that arrived before this socket
+				// registered for events is read without waiting for an event
+				<-s.notifyC
+				continue
+			}
 			err = e
 			break
 		}
